@@ -782,8 +782,15 @@ func cmdCheck(prop, tier string) int {
 			"scripted peers / simulated datastore stand in for the network and the disk (see stub_components)",
 		},
 	}
-	os.MkdirAll(filepath.Join(verifDir, "evidence"), 0o755)
-	writeJSON(filepath.Join(verifDir, "evidence", prop+".json"), ev)
+	// Evidence describes checks of /repo itself. A run against another tree
+	// (VERIF_REPO: a scratch worktree with a deliberate change) must not
+	// overwrite it; its evidence goes next to the replays instead.
+	evDir := filepath.Join(verifDir, "evidence")
+	if os.Getenv("VERIF_REPO") != "" {
+		evDir = filepath.Join(verifDir, "replays", "foreign-tree-evidence")
+	}
+	os.MkdirAll(evDir, 0o755)
+	writeJSON(filepath.Join(evDir, prop+".json"), ev)
 
 	fmt.Printf("%s %s: %d runs (%d non-trivial, %d distinct), %.0f s simulated, %d steps, %d determinism pairs / %d divergences, wall %.1fs\n",
 		prop, tier, agg.Runs, agg.NonTrivial, len(distinct), agg.SimTimeS, agg.Steps, detPairs, len(detDiv), wall)
